@@ -9,6 +9,7 @@ mod c05;
 mod c08;
 mod c09;
 mod c10;
+mod c17;
 mod crdt;
 mod gen;
 
@@ -45,6 +46,7 @@ fn main() {
             "C08" => c08::replay(&case),
             "C09" => c09::replay(&case),
             "C10" => c10::replay(&case),
+            "C17" => c17::replay(&case),
             _ => {
                 eprintln!("no replay for property {prop:?}");
                 2
@@ -68,6 +70,7 @@ fn main() {
         "C08" => c08::run(tier),
         "C09" => c09::run(tier),
         "C10" => c10::run(tier),
+        "C17" => c17::run(tier),
         _ => usage(),
     };
     std::process::exit(code);
